@@ -385,3 +385,7 @@ impl Client {
         Ok(register)
     }
 }
+
+#[cfg(maidsafe_safe_network_verif)]
+#[path = "verif/registers.rs"]
+pub mod verif;
